@@ -219,6 +219,17 @@ example :
       (some ⟨(1, 110), .parent⟩) [((1, 100), (1, 110)), ((1, 110), (1, 120))] true
       = .stored [.prop, .upReg] := by decide
 
+/-- the link check is an allow-list: an interface whose link type is unset (or any other value)
+never lets a beacon in -/
+example (lt : LinkType) (hlt : lt ≠ .parent ∧ lt ≠ .core) (ps : Policies) (es : List (IA × IA)) (u : List PolicyTag) :
+    handle (1, 120) ps (some ⟨(1, 110), lt⟩) es true ≠ .stored u := by
+  intro h
+  obtain ⟨i, hi, hl, _⟩ := (stored_iff _ _ _ _ _ _).1 h
+  cases hi
+  rcases hl with hl | hl
+  · exact hlt.1 hl
+  · exact hlt.2 hl
+
 example : shouldIgnore (1, 120) false [(1, 100), (1, 110)] (1, 130) = false := by decide
 example : isdLoop [(1, 100), (2, 100), (1, 101)] = true ∧ isdLoop [(1, 100), (1, 101), (2, 100)] = false := by
   decide
